@@ -5,6 +5,7 @@
 #include "vh.h"
 #include <map>
 #include <memory>
+#include <set>
 #include <tbox/base/json.hpp>
 #include <tbox/main/module.h>
 #include <tbox/util/variables.h>
@@ -102,9 +103,13 @@ uint64_t root_of(Probe *p) {
 
 // the configuration object: a named module with cfg=1 gets its key (an object holding its
 // children's keys); an unnamed module passes its parent's object through
+// during a `fillinit` op: the modules that were in the root's tree when the op began. fillDefaultConfig() created their keys,
+// and initialize() calls that hook scripts make during that op see them too (as in the model: `fillAll` holds for the whole op)
+std::set<uint64_t> g_filled;
+
 void fill_cfg(Probe *p, Json &js_parent) {
     if (p->named) {
-        if (!p->cfg) return;
+        if (!p->cfg && !g_filled.count(p->id)) return;
         Json &js_this = js_parent["m" + std::to_string(p->id)];
         js_this = Json::object();
         for (auto k : p->kids) fill_cfg(g_mods.at(k), js_this);
@@ -255,7 +260,12 @@ int main() {
                 ok = true;
                 try {
                     if (op == "init") ret = do_call(p, 'i');
-                    else if (op == "fillinit") { Json js = Json::object(); p->fillDefaultConfig(js); ret = p->initialize(js); }
+                    else if (op == "fillinit") {
+                        struct Clear { ~Clear() { g_filled.clear(); } } clear_at_end;
+                        std::vector<uint64_t> todo{p->id};
+                        while (!todo.empty()) { uint64_t k = todo.back(); todo.pop_back(); g_filled.insert(k); for (auto c : g_mods.at(k)->kids) todo.push_back(c); }
+                        Json js = Json::object(); p->fillDefaultConfig(js); ret = p->initialize(js);
+                    }
                     else if (op == "start") ret = do_call(p, 's');
                     else if (op == "stop") p->stop();
                     else if (op == "cleanup") p->cleanup();
